@@ -90,6 +90,8 @@ func (c *Ctx) Case(format string, a ...interface{}) {
 // CaseBytes writes the raw input of the next call to a side file (overwritten).
 func (c *Ctx) CaseBytes(b []byte) {
 	// one pwrite into a persistent file: [8-byte length][bytes]; cheap enough to do before every call
+	c.mu.Lock()
+	defer c.mu.Unlock()
 	if c.inputFile == nil {
 		c.inputFile, _ = os.OpenFile(filepath.Join(c.Out, "last_input.bin"), os.O_CREATE|os.O_RDWR|os.O_TRUNC, 0o644)
 		if c.inputFile == nil {
